@@ -50,6 +50,19 @@ def gen_gas():
                   fixed={"fluid": fluid}, option=True, ret_annot="option (R * R)",
                   preset={"non_hydrocarbon_properties": (rec, [("nitrogen", "R"), ("hydrogen_sulfide", "R"), ("co2", "R")])})
         tr.translate()
+    # the same with one extra (user-supplied) non-hydrocarbon component
+    tr0 = P.Tr(m, mk)
+    extra = P.Tu([P.St("extra"), P.Sc("x_fraction"), P.Sc("x_mw"), P.Sc("x_tc"), P.Sc("x_pc")])
+    rec4 = tr0.inline(mk, {"nitrogen": P.Sc("nitrogen"), "hydrogen_sulfide": P.Sc("hydrogen_sulfide"),
+                           "co2": P.Sc("co2"), "others": P.SV([extra])})
+    pars4 = [(n, "R") for n in ("nitrogen", "hydrogen_sulfide", "co2", "x_fraction", "x_mw", "x_tc", "x_pc")]
+    P.Tr(m, m.funcs["pseudocritical_point_Sutton"], emit_name="pseudocritical_point_Sutton_wet_extra",
+         fixed={"fluid": "wet gas"}, option=True, ret_annot="option (R * R)",
+         preset={"non_hydrocarbon_properties": (rec4, pars4)}).translate()
+    m.variants["pseudocritical_point_Sutton"] = [
+        ("pseudocritical_point_Sutton_dry", {"fluid": "dry gas"}),
+        ("pseudocritical_point_Sutton_wet", {"fluid": "wet gas"})]
+    m.inline_funcs["make_nonhydrocarbon_properties"] = (m, mk)
     _fn(m, "pseudopressure_Hussainy")
     return m
 
@@ -78,8 +91,32 @@ def gen_reservoir():
     return m
 
 
-GENERATORS = {"water": gen_water, "gas": gen_gas, "oil": gen_oil, "reservoir": gen_reservoir}
-DEPS = {"water": [], "gas": [], "oil": ["gas"], "reservoir": []}
+FLUID_FIELDS = ["temperature", "api_gravity", "gas_specific_gravity", "solution_gor_initial", "salinity",
+                "water_saturation_initial"]
+GAS_VALUES = ("rec", [("N2", "R"), ("H2S", "R"), ("CO2", "R"), ("Gas Specific Gravity", "R"),
+                      ("Reservoir Temperature (deg F)", "R")])
+
+
+def gen_fluid():
+    gas, _ = module("gas")
+    oil, _ = module("oil")
+    water, _ = module("water")
+    m = P.Module(os.path.join(SRC, "fluids", "fluid.py"), "Gen_fluid", imports=[gas, oil, water])
+    for meth in ("water_FVF", "water_viscosity", "gas_FVF", "gas_viscosity", "oil_FVF", "oil_viscosity"):
+        P.Tr(m, m.method("Fluid", meth), emit_name="Fluid_" + meth, self_fields=FLUID_FIELDS,
+             kinds={"pressure": "list"}).translate()
+    P.Tr(m, m.method("Fluid", "pressure_bubblepoint"), emit_name="Fluid_pressure_bubblepoint",
+         self_fields=FLUID_FIELDS).translate()
+    for variant, dry in (("dry", "dry gas"), ("wet", "wet gas")):
+        P.Tr(m, m.funcs["build_pvt_gas"], emit_name=f"build_pvt_gas_{variant}", option=True,
+             kinds={"gas_values": GAS_VALUES}, fixed={"gas_dryness": dry}).translate()
+    P.Tr(m, m.funcs["pseudopressure"], emit_name="pseudopressure",
+         kinds={"pressure": "list", "viscosity": "list", "z_factor": "list"}).translate()
+    return m
+
+
+GENERATORS = {"fluid": gen_fluid, "water": gen_water, "gas": gen_gas, "oil": gen_oil, "reservoir": gen_reservoir}
+DEPS = {"water": [], "gas": [], "oil": ["gas"], "reservoir": [], "fluid": ["gas", "oil", "water"]}
 
 
 def module(name):
